@@ -698,6 +698,9 @@ func hostileInputs() []hostile {
 		hostile{"deep-nesting", dMPImplied, fmt.Sprintf("rep:91:%d:c0", deep), cty.DynamicPseudoType, deep + 1},
 		hostile{"deep-nesting", dMPImplied, fmt.Sprintf("rep:81a161:%d:c0", deep/3), cty.DynamicPseudoType, deep + 1},
 		hostile{"deep-nesting", dMPValue, fmt.Sprintf("rep:91:%d:c0", deep), cty.DynamicPseudoType, deep + 1},
+		// maps only, deep enough to exhaust the largest goroutine stack if the depth limit did not count them
+		hostile{"deep-nesting-maps", dMPImplied, fmt.Sprintf("rep:81a0:%d:c0", 2*deep), cty.DynamicPseudoType, 4*deep + 1},
+		hostile{"deep-nesting-mixed", dMPImplied, fmt.Sprintf("rep:9181a0:%d:c0", deep), cty.DynamicPseudoType, 3*deep + 1},
 		hostile{"deep-nesting", dJSONImplied, fmt.Sprintf("rep:5b:%d::5d", deep), cty.DynamicPseudoType, 2 * deep},
 		hostile{"deep-nesting", dJSONImplied, fmt.Sprintf("rep:7b2261223a:%d:30:7d", deep/5), cty.DynamicPseudoType, 2 * deep},
 		hostile{"deep-nesting", dJSONValue, fmt.Sprintf("rep:5b:%d::5d", deep), cty.DynamicPseudoType, 2 * deep},
@@ -1009,6 +1012,7 @@ func c17Heterogeneous(c *Ctx, r *rng.R) {
 	// MessagePack
 	{
 		var body []byte
+		var pieces [][]byte
 		ok := true
 		for k, m := range ms {
 			b, err := msgpack.Marshal(m, cty.DynamicPseudoType)
@@ -1020,6 +1024,29 @@ func c17Heterogeneous(c *Ctx, r *rng.R) {
 				body = append(body, 0xa2, 'k', byte('0'+k))
 			}
 			body = append(body, b...)
+			pieces = append(pieces, b)
+		}
+		if ok && !asMap && !nested {
+			var boxes, objs []byte
+			for _, b := range pieces {
+				boxes = append(append(boxes, 0x91), b...)
+				objs = append(append(objs, 0x81, 0xa1, 'a'), b...)
+			}
+			for _, sp := range []struct {
+				in []byte
+				ty cty.Type
+			}{
+				{append([]byte{byte(0x90 | n)}, boxes...), cty.List(cty.List(cty.DynamicPseudoType))},
+				{append([]byte{byte(0x90 | n)}, boxes...), cty.List(cty.Tuple([]cty.Type{cty.DynamicPseudoType}))},
+				{append([]byte{byte(0x90 | n)}, boxes...), cty.Set(cty.Set(cty.DynamicPseudoType))},
+				{append([]byte{byte(0x90 | n)}, objs...), cty.List(cty.Object(map[string]cty.Type{"a": cty.DynamicPseudoType}))},
+				{append([]byte{byte(0x90 | n)}, objs...), cty.Set(cty.Map(cty.DynamicPseudoType))},
+			} {
+				desc := map[string]interface{}{"decoder": dMPValue, "input": hex.EncodeToString(sp.in), "target": fmt.Sprintf("%#v", sp.ty), "kind": "heterogeneous-split"}
+				if o, ok := decode17(c, dMPValue, sp.in, sp.ty, desc); ok {
+					c.mpCases(sp.in, sp.ty, o, "heterogeneous-split", desc)
+				}
+			}
 		}
 		if ok {
 			hdr := byte(0x90 | n)
@@ -1070,6 +1097,31 @@ func c17Heterogeneous(c *Ctx, r *rng.R) {
 				desc := map[string]interface{}{"decoder": dJSONValue, "input": doc, "target": fmt.Sprintf("%#v", ty), "kind": "heterogeneous"}
 				if o, ok := decode17(c, dJSONValue, input, ty, desc); ok {
 					c.jsonCases(dJSONValue, input, ty, o, "heterogeneous", desc)
+				}
+			}
+			// each member in a structure of its own: the members agree with their own constraint one by one, the
+			// structures around them get different types, and the collection of those structures has to refuse them
+			if !asMap && !nested {
+				var boxes, objs []string
+				for _, p := range parts {
+					boxes = append(boxes, "["+p+"]")
+					objs = append(objs, `{"a":`+p+`}`)
+				}
+				split := []struct {
+					doc string
+					ty  cty.Type
+				}{
+					{"[" + strings.Join(boxes, ",") + "]", cty.List(cty.List(cty.DynamicPseudoType))},
+					{"[" + strings.Join(boxes, ",") + "]", cty.List(cty.Tuple([]cty.Type{cty.DynamicPseudoType}))},
+					{"[" + strings.Join(boxes, ",") + "]", cty.Set(cty.Set(cty.DynamicPseudoType))},
+					{"[" + strings.Join(objs, ",") + "]", cty.List(cty.Object(map[string]cty.Type{"a": cty.DynamicPseudoType}))},
+					{"[" + strings.Join(objs, ",") + "]", cty.Set(cty.Map(cty.DynamicPseudoType))},
+				}
+				for _, sp := range split {
+					desc := map[string]interface{}{"decoder": dJSONValue, "input": sp.doc, "target": fmt.Sprintf("%#v", sp.ty), "kind": "heterogeneous-split"}
+					if o, ok := decode17(c, dJSONValue, []byte(sp.doc), sp.ty, desc); ok {
+						c.jsonCases(dJSONValue, []byte(sp.doc), sp.ty, o, "heterogeneous-split", desc)
+					}
 				}
 			}
 		}
